@@ -102,6 +102,22 @@ def spec_strategy(max_leaves=12, containers=True, parseable=False):
             children.map(lambda a: ('prefix', '-', a)),
             children.map(lambda a: ('postfix', a, '!')),
         ]
+        # containers inside containers, objects BEHIND plain values: places a traversal that
+        # looks only at the first or only at the direct elements of a container never reaches
+        plain = ('leaf', 'x') if parseable else ('leaf', 7)
+        shapes = [
+            lambda a: ('list', [plain, ('list', [a])]),
+            lambda a: ('list', [('list', [plain, a]), plain]),
+            lambda a: ('list', [('list', [a]), ('list', [plain, a])]),
+        ]
+        if not parseable and containers:
+            shapes += [
+                lambda a: ('tuple', [plain, a]),
+                lambda a: ('list', [plain, ('tuple', [plain, a])]),
+                lambda a: ('dict', [('k', plain), ('j', ('list', [plain, a]))]),
+                lambda a: ('tuple', [('dict', [('k', a)])]),
+            ]
+        opts.append(st.tuples(children, st.integers(0, len(shapes) - 1)).map(lambda t: shapes[t[1]](t[0])))
         if not parseable and containers:
             opts += [
                 st.lists(children, max_size=3).map(lambda xs: ('tuple', xs)),
@@ -415,4 +431,64 @@ def swap_class(spec, choice):
             return ('prefix', s[1], rebuild(s[2], path[1:]))
         if k == 'postfix':
             return ('postfix', rebuild(s[1], path[1:]), s[2])
+    return rebuild(spec, target), True
+
+
+def anagram(spec, choice, mode=0):
+    """Copy of spec in which the children of one node are rearranged (two field values
+    exchanged, a list rotated, the operands of an infix node exchanged) or - mode 1 - a pair
+    of equal siblings is replaced by another pair of equal siblings: the parts (or their
+    multiplicities) stay what they were, so order-insensitive ways of combining the parts'
+    hashes collide, and yet the objects are different values."""
+    nodes = []
+
+    def kids(s):
+        k = s[0]
+        if k == 'obj':
+            return list(s[2])
+        if k in ('list', 'tuple'):
+            return list(s[1])
+        if k == 'dict':
+            return [c for _, c in s[1]]
+        if k == 'infix':
+            return [s[1], s[3]]
+        if k == 'prefix':
+            return [s[2]]
+        if k == 'postfix':
+            return [s[1]]
+        return []
+
+    def collect(s, path):
+        ks = kids(s)
+        if len(ks) >= 2 and s[0] != 'dict' and any(repr(a) != repr(b) for a in ks for b in ks):
+            nodes.append(path)
+        for i, c in enumerate(ks):
+            collect(c, path + (i,))
+    collect(spec, ())
+    if not nodes:
+        return spec, False
+    target = nodes[choice % len(nodes)]
+
+    def with_kids(s, ks):
+        k = s[0]
+        if k == 'obj':
+            return ('obj', s[1], list(ks))
+        if k in ('list', 'tuple'):
+            return (k, list(ks))
+        if k == 'dict':
+            return ('dict', [(kv[0], c) for kv, c in zip(s[1], ks)])
+        if k == 'infix':
+            return ('infix', ks[0], s[2], ks[1])
+        if k == 'prefix':
+            return ('prefix', s[1], ks[0])
+        return ('postfix', ks[0], s[2])
+
+    def rebuild(s, path):
+        ks = kids(s)
+        if not path:
+            if mode == 1:
+                return with_kids(s, [ks[-1]] * len(ks))
+            return with_kids(s, ks[1:] + ks[:1])
+        ks[path[0]] = rebuild(ks[path[0]], path[1:])
+        return with_kids(s, ks)
     return rebuild(spec, target), True
